@@ -1,10 +1,72 @@
 /-
   C07 — GCD, extended GCD, LCM, modular inverse, Jacobi/Kronecker.
-  Property theorems only; helper lemmas live in MpirProofs/Lemmas/Gcd.lean.  Every theorem is about the
+  Property theorems only; helper lemmas live in MpirProofs/Lemmas/Gcd*.lean.  Every theorem is about the
   executable models in Mpir/Model/Gcd.lean, which the correspondence check runs against the real library.
 -/
-import MpirProofs.Lemmas.Gcd
+import MpirProofs.Lemmas.GcdLoop
 namespace Mpir.Gcd
 open Mpir
+
+/-! ## The reduction invariant (backbone of mpn_gcd, mpn_gcdext, mpn_hgcd, Lehmer steps) -/
+
+/-- One step by a non-negative matrix of determinant 1 — (a, b) = M·(a', b'), cofactor row multiplied
+    by M — preserves the gcd and carries the cofactor relation a = u1·A - v1·B, b = -u0·A + v0·B
+    (with v0·u1 - v1·u0 = 1) over to the new state. -/
+theorem red_preserves (m : M1) (s s' : RState) (h : StepOk m s s') :
+    Nat.gcd s.a s.b = Nat.gcd s'.a s'.b ∧
+    ∀ A B v0 v1, CofInv A B s v0 v1 → CofInv A B s' (v0 * m.u00 + v1 * m.u10) (v0 * m.u01 + v1 * m.u11) :=
+  ⟨stepOk_gcd h, fun _ _ _ _ hc => stepOk_cof h hc⟩
+
+-- non-vacuity: the division step 240 = 5·46 + 10 as the matrix (1 5; 0 1)
+example : StepOk ⟨1, 5, 0, 1⟩ ⟨240, 46, 0, 1⟩ ⟨10, 46, 0, 1⟩ := by decide
+example : Nat.gcd 240 46 = Nat.gcd 10 46 := (red_preserves ⟨1, 5, 0, 1⟩ ⟨240, 46, 0, 1⟩ ⟨10, 46, 0, 1⟩ (by decide)).1
+
+/-- the relation "s' is obtained from s by a proper step": M ≠ identity and both new entries positive
+    (what hgcd2 and the subtract/divide steps produce). -/
+def ProperStep (s' s : RState) : Prop :=
+  ∃ m, StepOk m s s' ∧ (m.u01 ≠ 0 ∨ m.u10 ≠ 0) ∧ 0 < s'.a ∧ 0 < s'.b
+
+/-- ANY sequence of steps satisfying the step contract, started from (A, B) with cofactors (0, 1),
+    keeps gcd(a, b) = gcd(A, B) and the cofactor relation; hence when it stops at b = 0, a = 0 or
+    a = b the surviving value is the gcd and the cofactor the C returns (+u1, -u0, or the one
+    `pickCofactor` selects) is a valid first Bezout coefficient. -/
+theorem gcd_loop_correct (A B : Nat) (s : RState) (h : Reach ⟨A, B, 0, 1⟩ s) :
+    Nat.gcd s.a s.b = Nat.gcd A B ∧
+    (∃ v0 v1, CofInv A B s v0 v1) ∧
+    (s.b = 0 → s.a = Nat.gcd A B ∧ ∃ t : Int, (A : Int) * s.u1 + B * t = Nat.gcd A B) ∧
+    (s.a = 0 → s.b = Nat.gcd A B ∧ ∃ t : Int, (A : Int) * (-(s.u0 : Int)) + B * t = Nat.gcd A B) ∧
+    (s.a = s.b → s.a = Nat.gcd A B ∧
+        ∀ d, ∃ t : Int, (A : Int) * pickCofactor s.u0 s.u1 d + B * t = Nat.gcd A B) := by
+  obtain ⟨hg, hc⟩ := reach_inv h (A := A) (B := B)
+  obtain ⟨v0, v1, hd, ca, cb⟩ := hc 1 0 (cofInv_init A B)
+  simp only at hg
+  have ea : ∃ t : Int, (A : Int) * s.u1 + B * t = s.a := ⟨-(v1 : Int), by rw [ca]; ring⟩
+  have eb : ∃ t : Int, (A : Int) * (-(s.u0 : Int)) + B * t = s.b := ⟨(v0 : Int), by rw [cb]; ring⟩
+  refine ⟨hg.symm, ⟨v0, v1, hd, ca, cb⟩, ?_, ?_, ?_⟩
+  · intro hb0
+    have : s.a = Nat.gcd A B := by rw [hg, hb0, Nat.gcd_zero_right]
+    exact ⟨this, by rw [← this]; exact ea⟩
+  · intro ha0
+    have : s.b = Nat.gcd A B := by rw [hg, ha0, Nat.gcd_zero_left]
+    exact ⟨this, by rw [← this]; exact eb⟩
+  · intro hab
+    have : s.a = Nat.gcd A B := by rw [hg, ← hab, Nat.gcd_self]
+    refine ⟨this, fun d => ?_⟩
+    rcases pickCofactor_cases s.u0 s.u1 d with e | e <;> rw [e]
+    · rw [← this, hab]; exact eb
+    · rw [← this]; exact ea
+
+-- non-vacuity: two division steps of the Euclidean algorithm on (240, 46) as contract steps
+example : Reach ⟨240, 46, 0, 1⟩ ⟨10, 6, 4, 1⟩ :=
+  .step (s' := ⟨10, 46, 0, 1⟩) ⟨1, 5, 0, 1⟩ (by decide) (.step (s' := ⟨10, 6, 4, 1⟩) ⟨1, 0, 4, 1⟩ (by decide) (.refl _))
+
+/-- the measure a + b strictly decreases along proper steps, so every step sequence is finite. -/
+theorem gcd_loop_terminates : WellFounded ProperStep := by
+  apply Subrelation.wf (r := InvImage (· < ·) (fun s : RState => s.a + s.b))
+  · intro s' s ⟨m, h, hne, ha, hb⟩
+    exact stepOk_decreases h hne ha hb
+  · exact InvImage.wf _ Nat.lt_wfRel.wf
+
+example : ProperStep ⟨10, 46, 0, 1⟩ ⟨240, 46, 0, 1⟩ := ⟨⟨1, 5, 0, 1⟩, by decide, by decide, by decide, by decide⟩
 
 end Mpir.Gcd
